@@ -13,7 +13,17 @@ OutMatches(o, obs) ==
     CASE o.k = "num"  -> obs.k = "num" /\ obs.tc = o.tc /\ obs.v = o.v
       [] o.k = "mat"  -> obs.k = "mat"
       [] o.k = "none" -> obs.k = "none" \/ ("lax" \in DOMAIN o /\ obs.k = "err")
-      [] o.k = "err"  -> obs.k = "err" /\ obs.cls \in {"IndexError", "TypeError", "ValueError"}     \* which of the three: not specified
+      [] o.k = "err"  -> obs.k = "err" /\ obs.cls \in (CASE o.cls = "ZeroDivision" -> {"ZeroDivisionError"}
+                                                          [] o.cls = "AnyErr" -> {"IndexError", "TypeError", "ValueError", "ZeroDivisionError", "NotImplementedError"}
+                                                          [] o.cls = "Unsupported" -> {"TypeError", "NotImplementedError"}
+                                                          [] OTHER -> {"IndexError", "TypeError", "ValueError"})     \* which of the three: not specified
+      \* a result outside the Gaussian integers: type, shape and storage kind are specified, the values are not compared, the trace ends here
+      [] o.k = "cut"  -> LET x == IF "dst" \in DOMAIN E.op THEN E.op.dst ELSE E.op.src IN
+                         /\ obs.k = (IF "dst" \in DOMAIN E.op THEN "mat" ELSE "none") /\ x \in DOMAIN E.heap
+                         /\ E.heap[x].nr = o.nr /\ E.heap[x].nc = o.nc
+                         /\ E.heap[x].tc = (IF E.heap[x].kind = "sparse" THEN SpTc(o.tc) ELSE o.tc)
+                         /\ (E.heap[x].kind = "sparse" => CCSValid(E.heap[x]))
+      [] o.k = "unspec" -> TRUE
 Image(o) == IF o.kind = "sparse" THEN Densify(o) ELSE Mat(o.tc, o.nr, o.nc, o.buf)
 Bounds(h, e) == \A n \in Names : (e[n] = Unbound) <=> (n \notin DOMAIN E.heap)
 KindsMatch(e, kd) == \A n \in Names : e[n] # Unbound => E.heap[n].kind = kd[e[n]]
@@ -27,18 +37,23 @@ Pinned == IF E.op.k = "sp_new" /\ out'.k = "mat"
           ELSE IF "keepnnz" \in DOMAIN E /\ out'.k = "mat" /\ E.heap[E.op.dst].kind = "sparse"
           THEN Nnz(E.heap[E.op.dst]) = E.keepnnz ELSE TRUE
 
+Ends(o) == o.k \in {"cut", "unspec"}
+\* (IF, not \/: TLC evaluates both disjuncts of a disjunction inside an action)
 TStep == /\ l <= Len(Tr)
          /\ SDo(E.op)
+         /\ Clause("exact-values", IF Ends(out') THEN TRUE ELSE ~E.nonint)
          /\ Clause("result", OutMatches(out', E.out))
-         /\ Clause("names", Bounds(heap', env'))
-         /\ Clause("ccs-valid", Valid)
-         /\ Clause("kind", KindsMatch(env', kind'))
-         /\ Clause("dense-image", Images(heap', env'))
-         /\ Clause("identity", AliasMatches(env', E.same))
-         /\ Clause("pattern", Pinned)
+         /\ IF Ends(out') THEN TRUE ELSE
+              /\ Clause("names", Bounds(heap', env'))
+              /\ Clause("ccs-valid", Valid)
+              /\ Clause("kind", KindsMatch(env', kind'))
+              /\ Clause("dense-image", Images(heap', env'))
+              /\ Clause("identity", AliasMatches(env', E.same))
+              /\ Clause("pattern", Pinned)
          /\ Clause("index-arguments-unchanged", E.idxok)
-TDone == l = Len(Tr) + 1 /\ PrintT(<<"ACCEPT", tid>>) /\ UNCHANGED svars
+         /\ l' = IF Ends(out') THEN Len(Tr) + 1 ELSE l + 1
+TDone == l = Len(Tr) + 1 /\ PrintT(<<"ACCEPT", tid>>) /\ UNCHANGED svars /\ l' = l + 1
 TInit == SInit /\ tid \in 1..Len(Traces) /\ l = 1
-TNext == (TStep \/ TDone) /\ l' = l + 1 /\ UNCHANGED tid
+TNext == (TStep \/ TDone) /\ UNCHANGED tid
 TSpec == TInit /\ [][TNext]_<<svars, tid, l>>
 =============================================================================
